@@ -1651,7 +1651,7 @@ theorem dropHist_addHist (w : World) (p d : Nat) : (w.addHist p d).dropHist p = 
   world_eq_of_noParts ((dropHist_noParts _ _).trans (addHist_noParts _ _ _))
     (dropHist_addHist_parts rfl)
 
-theorem fuel_succ (w : World) : w.fuel = (w.devs.length + 2) + 1 := rfl
+theorem fuel_succ (w : World) : w.fuel = (2 * w.devs.length + 2) + 1 := rfl
 
 theorem waitingSince_handlerLike (w : World) (d : Nat) (h : isHandlerLike (w.dev d).kind = true) :
     waitingSince w.fuel w d = (w.dev d).since := by
